@@ -14,6 +14,11 @@ CLAIMED = {
   note="Trusted: gowp, go/ssa, solvers, amd64 float->int table; math.* per Go documentation; (*object).DefaultValue result well-formedness is a trusted contract.",
   technique="contract-based deductive verification: postconditions from ES5 sections 9/11 as SMT FP/BV spec functions, VCs over go/ssa discharged by z3/cvc5",
   ref="6 C05"),
+ "C07": dict(
+  text="Proof that [[DefineOwnProperty]] (ES5 8.12.9) accepts, rejects and merges attributes exactly as the thirteen steps prescribe, stated over the whole resulting property record and the whole property table (nothing else changes), for every current property and descriptor; [[GetOwnProperty]], [[GetProperty]], [[CanPut]] (own/inherited data and accessor cases, extensibility) and [[Delete]] per 8.12.1-7; the octal attribute algebra; dispatch-table slots. Histories are covered by induction over these per-operation contracts (paper lemma), prototype chains through the trusted dispatcher contracts.",
+  note="Trusted: gowp, go/ssa, solvers; dispatcher methods ((*object).getOwnProperty etc.) are trusted contracts tied to the table obligations; SameValue as an abstract function; propertyOrder contents (enumeration order) not yet specified.",
+  technique="contract-based deductive verification: ES5 8.12 as pre/postconditions over map-heap views, VCs over go/ssa discharged by z3/cvc5",
+  ref="6 C07"),
  "C13": dict(
   text="Proof for all doubles that Math.round equals the ES5 15.8.2.15 definition (ties up, signed zero), the Math.pow/atan2 NaN rows that do not depend on library accuracy, and that escape() leaves exactly the B.2.1 character set unescaped; further kernels as listed in the evidence. Accuracy of transcendental functions and the URI sets (regexp, net/url) are not covered.",
   note="Trusted: gowp, go/ssa, solvers; math.Floor/Ceil/Copysign/Pow per Go documentation (assumed contracts listed in the evidence); argument arrays assumed not written during a native call.",
